@@ -8,7 +8,7 @@ import SleapVerif.Model.Datasets
 
 `ds <variant> <kind 0=bottomUp 1=single 2=centroid 3=centered> <userOnly> <maxH|-1> <maxW|-1> <cfgMaxH|-1> <cfgMaxW|-1>
     <scale> <anchor|-1> <cropH> <cropW> <nFrames> {<frameIdx> <videoIdx> <H> <W> <nInst>
-    {<kind 0=user 1=predicted> <nNodes> <coords…>}} <seqLen> <i…>`
+    {<kind 0=user 1=predicted> <nNodes> {<x> <y> <visible 0|1>}}} <seqLen> <i…>`
    → `ok len <n> idx <m> … reads <k> {s <nkeys> {<key> <npts> x y …} <num> <f> <v> <H> <W> | raise}
       spec <0|1>`   (`spec` = every read equals `specSample`, `len = specLen`, the built state satisfies `WFds` and caches exactly `specCache`)
 -/
@@ -36,16 +36,22 @@ def sampleStr (s : DictV Rat × SMeta) : String :=
   s!"s {s.1.length} " ++ " ".intercalate ks ++
     s!" {s.2.numInstances} {s.2.frameIdx} {s.2.videoIdx} {s.2.H} {s.2.W}"
 
-def instP : P (Inst Rat) := do
+def nodeP : P (Node Rat) := do
+  let p ← pt
+  let v ← bool
+  pure ⟨p, v⟩
+
+def instP : P (RawInst Rat) := do
   let k ← nat
   let n ← nat
-  let pts ← rep n pt
-  pure ⟨if k = 0 then .user else .predicted, pts⟩
+  let nodes ← rep n nodeP
+  pure ⟨if k = 0 then .user else .predicted, nodes⟩
 
+/-- frames arrive in their stored representation; the model sees them through `RawFrame.abs` -/
 def frameP : P (Frame Rat) := do
   let fi ← nat; let vi ← nat; let H ← nat; let W ← nat
   let insts ← listOf instP
-  pure ⟨fi, vi, H, W, insts⟩
+  pure (RawFrame.abs ⟨fi, vi, H, W, insts⟩)
 
 def kindOf (n : Nat) : DsKind :=
   match n with | 0 => .bottomUp | 1 => .single | 2 => .centroid | _ => .centered
